@@ -303,7 +303,9 @@ def fp(nd):
         if nd[2] is None:
             return nd[1]
         lv = nd[2]
-        return f"{nd[1]}[{lv}]" if isinstance(lv, str) and lv.isidentifier() else f"{nd[1]}['{lv}']"
+        plain = isinstance(lv, str) and lv != "" and lv[0].isalpha() and all(c.isalnum() or c in "._" for c in lv) \
+            and lv not in ("True", "False", "None")
+        return f"{nd[1]}[{lv}]" if plain else f"{nd[1]}['{lv}']"
     if k == "bq":
         return nd[1]
     if k == "lit":
